@@ -110,7 +110,7 @@ frecipe('SeparableSum/L1+L2sq', ('rn', 'discr'), 'pl', [DEF + 'SeparableSum'], n
     lambda ctx, sp: S.SeparableSum(S.L1Norm(sp), S.L2NormSquared(sp)))
 frecipe('SeparableSum/power', ('rn',), 'pl', [DEF + 'SeparableSum'], n=1)(
     lambda ctx, sp: S.SeparableSum(S.L1Norm(sp), 2))
-frecipe('QuadraticForm/op+vec', ('rn', 'arn'), 'pl', [DEF + 'QuadraticForm'])(
+frecipe('QuadraticForm/op+vec', ('rn',), 'pl', [DEF + 'QuadraticForm'])(
     lambda ctx, sp: S.QuadraticForm(
         operator=odl.MatrixOperator(np.array([[2.0, 0.5], [0.5, 1.0]]), domain=sp, range=sp),
         vector=sp.element([1.0, -2.0]), constant=0.5))
@@ -174,7 +174,7 @@ frecipe('derived/L2sq*v', ('rn', 'discr'), 'pl', [FUN + 'FunctionalRightVectorMu
     lambda ctx, sp: S.L2NormSquared(sp) * sp.element([2.0, -0.5][:sp.size]))
 frecipe('derived/L1*v', ('rn',), 'pl', [FUN + 'FunctionalRightVectorMult'], n=1)(
     lambda ctx, sp: S.L1Norm(sp) * sp.element([2.0, -0.5][:sp.size]))
-frecipe('derived/QuadraticForm*v', ('rn', 'arn'), 'pl', [FUN + 'FunctionalRightVectorMult'])(
+frecipe('derived/QuadraticForm*v', ('rn',), 'pl', [FUN + 'FunctionalRightVectorMult'])(
     lambda ctx, sp: S.QuadraticForm(
         operator=odl.MatrixOperator(np.array([[2.0, 0.5], [0.5, 1.0]]), domain=sp, range=sp),
         vector=sp.element([1.0, -2.0])) * sp.element([2.0, -0.5]))
